@@ -47,6 +47,7 @@ def regex_table(sg: Graph, dg: Graph, extra_strings=()):
         try:
             rx = re.compile(pat, fl)
         except re.error:
+            out.append((pat, flags, "%invalid-regex%", True))   # python's re rejects the pattern
             continue
         for st in strings:
             out.append((pat, flags, st, bool(rx.search(st))))
